@@ -97,6 +97,10 @@ structure G where
   e : Int
   /-- ghost: number of StopTimeoutClock calls before this call began -/
   s0 : Nat
+  /-- ghost: real time (ns) at which the deadline was *made*: the time of the step that computed the
+      current value of `e` (the lock-free read of `current`, or the locked section).  `t0 ≤ tMade`; the
+      two differ by however long the goroutine was descheduled between the call and that step. -/
+  tMade : Int
   deriving DecidableEq, Repr
 
 structure CState where
@@ -117,28 +121,29 @@ def stepG (v : Variant) (p : Params) (s : State) (g : G) : Option (State × G) :
   | .new, .start => some (s, { g with pc := .gotFirst, ce := s.clockEnd })
   | .new, .gotFirst =>
     let e := s.current + D
-    some (s, { g with e := e, pc := if e > g.ce then .needLock else .done })
+    some (s, { g with e := e, tMade := s.now, pc := if e > g.ce then .needLock else .done })
   | .new, .needLock =>
     let s1 := refresh s
     let e := s1.current + D
-    some (extendClock p s1 e, { g with e := e, pc := .done })
+    some (extendClock p s1 e, { g with e := e, tMade := s.now, pc := .done })
   | .new, .needExtend => none
   -- 648a49f: the same, extendClock in a second section
   | .split, .start => some (s, { g with pc := .gotFirst, ce := s.clockEnd })
   | .split, .gotFirst =>
     let e := s.current + D
-    some (s, { g with e := e, pc := if e > g.ce then .needLock else .done })
+    some (s, { g with e := e, tMade := s.now, pc := if e > g.ce then .needLock else .done })
   | .split, .needLock =>
     let s1 := refresh s
-    some (s1, { g with e := s1.current + D, pc := .needExtend })
+    some (s1, { g with e := s1.current + D, tMade := s.now, pc := .needExtend })
   | .split, .needExtend => some (extendClock p s g.e, { g with pc := .done })
   -- before 648a49f: current, clockEnd, recompute only after an own refresh, two sections
-  | .old, .start => some (s, { g with pc := .gotFirst, e := s.current + D })
+  | .old, .start => some (s, { g with pc := .gotFirst, e := s.current + D, tMade := s.now })
   | .old, .gotFirst =>
     some (s, { g with ce := s.clockEnd, pc := if g.e > s.clockEnd then .needLock else .done })
   | .old, .needLock =>
     let s1 := refresh s
-    some (s1, { g with e := if !s.running && s.started then s1.current + D else g.e, pc := .needExtend })
+    some (s1, { g with e := if !s.running && s.started then s1.current + D else g.e,
+                       tMade := if !s.running && s.started then s.now else g.tMade, pc := .needExtend })
   | .old, .needExtend => some (extendClock p s g.e, { g with pc := .done })
 
 inductive Event where
@@ -157,7 +162,7 @@ inductive Event where
   deriving Repr
 
 def newG (s : CState) (d : Int) : G :=
-  { t0 := s.clk.now, d := d, pc := .start, ce := 0, e := 0, s0 := s.stops }
+  { t0 := s.clk.now, d := d, pc := .start, ce := 0, e := 0, s0 := s.stops, tMade := s.clk.now }
 
 /-- enabledness + effect.  New goroutines are appended, so indices of the others do not move
     (until a `retire`).  tick/idle/stop are the events of `Clock.step`. -/
